@@ -300,6 +300,12 @@ def exportedLoop (a : Authz) : List (String × List String) → List (String × 
     let flag := if r then true else flag
     if ss.length == 0 then exportedLoop a rest out flag else exportedLoop a rest (out ++ [(peer, ss)]) flag
 
+/-- the service loop of `filterNodeServices` BEFORE commit 8c494bd: `allowService` was given the map
+    key — the service ID — instead of the service name. Kept only to document the defect. -/
+def nodeServicesLoopOld (a : Authz) (n : String) (svcs : List (String × (String × Nat))) :
+    List (String × (String × Nat)) × Bool :=
+  rangeDelete (fun e : String × (String × Nat) => allowNode a n && allowService a e.1) svcs svcs false
+
 /-- the same case BEFORE commit 6834176 (`v.ResultsFilteredByACLs = f.filterServiceList(…)` inside the
     range): the flag is whatever the last-visited peer produced. Kept only to document the defect. -/
 def exportedLoopOld (a : Authz) : List (String × List String) → List (String × List String) → Bool → List (String × List String) × Bool
@@ -388,7 +394,7 @@ def filterCore (a : Authz) : Resp → Resp
   | .nodeServices (some (n, svcs)) _ =>
       if !allowNode a n then .nodeServices none true
       else
-        let (o, r) := rangeDelete (fun e : String × (String × Nat) => allowNode a n && allowService a e.1) svcs svcs false
+        let (o, r) := rangeDelete (fun e : String × (String × Nat) => allowNode a n && allowService a e.2.1) svcs svcs false
         .nodeServices (some (n, o)) r
   | .nodeServiceList none svcs _ => .nodeServiceList none svcs false
   | .nodeServiceList (some n) svcs _ =>
@@ -614,6 +620,24 @@ def entries : Resp → List Entry
       csnEntries "imported" imp
   | .dirEntries xs => xs.map fun e => ⟨"", e.2, "key", .key e.1, false⟩
   | .txnResults xs => xs.map fun r => ⟨"", r.id, "txn-result", txnReq r, false⟩
+
+/-- Shapes the theorems assume: Go map keys are unique, and a `NodeServiceList` without a node
+    carries no services (the catalog endpoint only builds it that way; the code returns such a
+    response unfiltered). -/
+def Resp.wf : Resp → Bool
+  | .nodeServiceList none svcs _ => svcs.isEmpty
+  | .nodeServices (some (_, svcs)) _ => decide (svcs.map (·.1)).Nodup
+  | .services m _ => decide (m.map (·.1)).Nodup
+  | _ => true
+
+/-- `IntentionQueryMatch` is all-or-nothing rather than per entry. -/
+def Resp.isIxnMatch : Resp → Bool
+  | .ixnMatch _ => true
+  | _ => false
+
+/-- Some removed entry is one whose removal the flag reports. -/
+def removedReported (a : Authz) (r : Resp) : Bool :=
+  (entries r).any fun e => !e.readable a && !e.silent
 
 /-- The `ResultsFilteredByACLs` flag of a response (`none`: the type has no such flag). -/
 def Resp.flag : Resp → Option Bool
